@@ -482,3 +482,209 @@ Proof.
   apply life_add_cb; auto; rewrite ?node_set_node_eq by assumption; subst x'; autorewrite with fb; auto.
   repeat split; cbn [fst snd]; auto. discriminate.
 Qed.
+
+(* ------------------------------------------------------------------ the two closing actions *)
+Lemma life_CloseKids : forall nt T s n w s', wf_net nt = true -> inv_shape nt s -> inv_life' nt s ->
+  step nt T s (CloseKids n w) = Ok s' -> inv_life' nt s'.
+Proof.
+  intros nt T s n w s' Hwf [Hlen Hws] I H. cbn [step] in H.
+  destruct (nth_error (ws (node s n)) w) as [[]|] eqn:Hg; try discriminate.
+  destruct (close_all s (targets (info nt n))) as [s1|] eqn:Hca; try discriminate.
+  injection H as <-.
+  apply close_all_some in Hca.
+  destruct Hca as (Hopen & Hsb & Hmono & Hcl & _ & Hlen1 & Hcbs & Hmn & Hto & _).
+  pose proof (node_ws_some_lt _ _ _ _ Hg) as Hn.
+  assert (Hn' : n < length nt) by lia.
+  assert (Hn1 : n < length (nodes s1)) by lia.
+  pose proof (i_nodes _ _ I n Hn') as Hok. unfold node_ok in Hok.
+  pose proof (running_once_O _ _ _ _ _ _ _ _ _ _ Hok Hg eq_refl) as Ho. rewrite Ho in Hok.
+  assert (Hclosed' : forall m, closed (node (set_node s1 n (set_worker (set_once (node s1 n) ODone) w WExit)) m)
+                               = closed (node s1 m)).
+  { intros m. destruct (Nat.eq_dec m n) as [->|Hm].
+    - rewrite node_set_node_eq by assumption. reflexivity.
+    - rewrite node_set_node_neq by congruence. reflexivity. }
+  destruct I as [A B C D E F].
+  constructor; unfold main_past_loop; autorewrite with fb; rewrite ?Hcbs, ?Hmn, ?Hto; auto.
+  - intros m Hm. unfold node_ok. autorewrite with fb. rewrite Hcbs.
+    destruct (Hsb m) as (a & b & c & d).
+    destruct (Nat.eq_dec m n) as [->|Hne].
+    + rewrite node_set_node_eq by assumption. autorewrite with fb. rewrite a, c, d.
+      apply nok_closed_mono with (C' := closed (node s1 n)) in Hok; [|apply Hmono].
+      wtac Hok Hg.
+    + rewrite node_set_node_neq by congruence. rewrite a, b, c, d.
+      eapply nok_closed_mono; [apply A; auto|apply Hmono].
+  - intros m c Hm Hc Hclosed. rewrite Hclosed' in Hclosed.
+    assert (Hodone : once (node s m) = ODone -> once (node (set_node s1 n (set_worker (set_once (node s1 n) ODone) w WExit)) m) = ODone).
+    { intros HH. destruct (Nat.eq_dec m n) as [->|Hne].
+      - rewrite node_set_node_eq by assumption. reflexivity.
+      - rewrite node_set_node_neq by congruence. destruct (Hsb m) as (_ & b & _). congruence. }
+    apply Hcl in Hclosed. destruct Hclosed as [Hclosed|Hin].
+    + apply Hodone. eapply B; eauto.
+    + assert (m = n) by (eapply wf_targets_unique; eauto). subst m.
+      rewrite node_set_node_eq by assumption. reflexivity.
+  - intros r Hr Hclosed. rewrite Hclosed' in Hclosed. apply Hcl in Hclosed. destruct Hclosed as [Hclosed|Hin].
+    + apply (C r Hr Hclosed).
+    + exfalso. eapply wf_target_not_root; eauto.
+  - intros Hm Ht. pose proof (F Hm Ht n w _ Hn' Hg). discriminate.
+Qed.
+
+Lemma life_MainCloseRoots : forall nt T s s', wf_net nt = true -> inv_shape nt s -> inv_life' nt s ->
+  step nt T s MainCloseRoots = Ok s' -> inv_life' nt s'.
+Proof.
+  intros nt T s s' Hwf [Hlen Hws] I H. cbn [step] in H.
+  destruct (mn s) eqn:Hm; try discriminate.
+  destruct (close_all s (roots nt)) as [s1|] eqn:Hca; try discriminate.
+  injection H as <-.
+  apply close_all_some in Hca.
+  destruct Hca as (Hopen & Hsb & Hmono & Hcl & _ & Hlen1 & Hcbs & Hmn & Hto & _).
+  destruct I as [A B C D E F].
+  match goal with |- inv_life' nt ?x => set (s' := x) end.
+  assert (Hnode : forall m, node s' m = node s1 m) by reflexivity.
+  constructor; unfold main_past_loop, node_ok; intros; rewrite ?Hnode in *; subst s'; cbn [cbs mn timedout] in *;
+    rewrite ?Hcbs; auto; try discriminate.
+  - rename n into m. destruct (Hsb m) as (a & b & c & d). rewrite a, b, c, d.
+    eapply nok_closed_mono; [apply A; auto|apply Hmono].
+  - rename n into m. rename H1 into Hclosed. apply Hcl in Hclosed. destruct Hclosed as [Hclosed|Hin].
+    + destruct (Hsb m) as (_ & b & _). rewrite b. eapply B; eauto.
+    + exfalso. eapply wf_target_not_root; eauto.
+  - apply D. rewrite <- Hcbs. assumption.
+Qed.
+
+(* ------------------------------------------------------------------ source / main / clock *)
+Lemma life_simple : forall nt T s a s', inv_shape nt s -> inv_life' nt s ->
+  match a with
+  | SrcEmit _ | SrcReturnNil | SrcReturnErr | SrcRestart | MainSeeClosed | MainWgDone | MainTimeout | Tick => True
+  | _ => False
+  end ->
+  step nt T s a = Ok s' -> inv_life' nt s'.
+Proof.
+  intros nt T s a s' [Hlen Hws] I Ha H.
+  destruct a; try contradiction; cbn [step] in H.
+  - (* SrcEmit *)
+    destruct (src s); try discriminate. destruct (mn s) eqn:Hm; try discriminate.
+    injection H as <-. apply inv_life'_log. apply (life_main nt s); auto; autorewrite with fb.
+    + unfold main_past_loop. rewrite Hm. discriminate.
+    + destruct (roots nt) as [|r rs] eqn:Hr; intros it' rs' E; inversion E; subst. split; [discriminate|]. rewrite Hr; auto.
+    + destruct (roots nt); discriminate.
+  - destruct (src s); try discriminate. injection H as <-.
+    apply inv_life'_log. apply (life_main nt s); auto; try apply (i_g9 _ _ I); try apply (i_gx _ _ I).
+  - destruct (src s); try discriminate. injection H as <-.
+    apply inv_life'_log. apply (life_main nt s); auto; try apply (i_g9 _ _ I); try apply (i_gx _ _ I).
+  - destruct (src s); try discriminate. injection H as <-.
+    apply inv_life'_log. apply (life_main nt s); auto; try apply (i_g9 _ _ I); try apply (i_gx _ _ I).
+  - (* MainSeeClosed *)
+    destruct (mn s) eqn:Hm; try discriminate. destruct (src s); try discriminate. injection H as <-.
+    apply (life_main nt s); auto; autorewrite with fb.
+    + unfold main_past_loop. rewrite Hm. discriminate.
+    + intros it rs E; discriminate.
+    + discriminate.
+  - (* MainWgDone *)
+    destruct (mn s) eqn:Hm; try discriminate. destruct (all_exited s) eqn:Hall; try discriminate. injection H as <-.
+    apply inv_life'_log. apply (life_main nt s); auto; autorewrite with fb.
+    + intros it rs E; discriminate.
+    + intros _ _ n w st Hn Hnth. unfold all_exited in Hall. rewrite forallb_forall in Hall.
+      assert (Hn2 : n < length (nodes s)) by lia.
+      specialize (Hall (node s n) (node_In _ _ Hn2)).
+      pose proof (forallb_nth_error _ _ _ _ _ Hall Hnth). destruct st; try discriminate; auto.
+  - (* MainTimeout *)
+    destruct (mn s) eqn:Hm; try discriminate. destruct (_ <=? _); try discriminate. injection H as <-.
+    apply inv_life'_log. apply (life_main nt s); auto; cbn [mn timedout].
+    + intros it rs E; discriminate.
+    + discriminate.
+  - (* Tick *)
+    injection H as <-. apply (life_main nt s); auto; try apply (i_g9 _ _ I); try apply (i_gx _ _ I).
+Qed.
+
+(* ------------------------------------------------------------------ shape *)
+Lemma shape_intro : forall nt s s',
+  length (nodes s') = length (nodes s) ->
+  (forall m, length (ws (node s' m)) = length (ws (node s m))) ->
+  inv_shape nt s -> inv_shape nt s'.
+Proof. intros nt s s' Hl Hw [A B]. split; [congruence|]. intros n Hn. rewrite Hw. auto. Qed.
+
+Lemma shape_log : forall nt s es, inv_shape nt s -> inv_shape nt (log s es).
+Proof. intros. eapply shape_intro; eauto. Qed.
+
+Lemma shape_set_node : forall nt s n x, length (ws x) = length (ws (node s n)) ->
+  inv_shape nt s -> inv_shape nt (set_node s n x).
+Proof.
+  intros. apply (shape_intro nt s); auto. apply nodes_len_set_node.
+  intros m. destruct (Nat.eq_dec m n) as [->|Hm].
+  - destruct (Nat.lt_ge_cases n (length (nodes s))).
+    + rewrite node_set_node_eq; auto. + rewrite node_set_node_oob; auto.
+  - rewrite node_set_node_neq; auto.
+Qed.
+
+Lemma shape_try_send : forall nt s c it s1, try_send nt s c it = Sent s1 -> inv_shape nt s -> inv_shape nt s1.
+Proof.
+  intros. apply try_send_sent in H. destruct H as (_ & Hsl & _ & Hl & _).
+  eapply shape_intro; eauto. intros m. destruct (Hsl m) as (a & _). rewrite a. auto.
+Qed.
+
+Lemma shape_close_all : forall nt s cs s1, close_all s cs = Some s1 -> inv_shape nt s -> inv_shape nt s1.
+Proof.
+  intros. apply close_all_some in H. destruct H as (_ & Hsb & _ & _ & _ & Hl & _).
+  eapply shape_intro; eauto. intros m. destruct (Hsb m) as (a & _). rewrite a. auto.
+Qed.
+
+Theorem shape_step : forall nt T s a s', inv_shape nt s -> step nt T s a = Ok s' -> inv_shape nt s'.
+Proof.
+  intros nt T s a s' Hs H.
+  destruct a; cbn [step] in H.
+  - destruct (src s); try discriminate. destruct (mn s); try discriminate. injection H as <-.
+    apply shape_log. eapply shape_intro; eauto.
+  - destruct (src s); try discriminate. injection H as <-. apply shape_log. eapply shape_intro; eauto.
+  - destruct (src s); try discriminate. injection H as <-. apply shape_log. eapply shape_intro; eauto.
+  - destruct (src s); try discriminate. injection H as <-. apply shape_log. eapply shape_intro; eauto.
+  - destruct (mn s) as [|it [|r rs]| | |]; try discriminate.
+    destruct (try_send nt s r it) eqn:Hts; try discriminate. injection H as <-.
+    apply shape_try_send in Hts; auto.
+  - destruct (mn s); try discriminate. destruct (src s); try discriminate. injection H as <-.
+    eapply shape_intro; eauto.
+  - destruct (mn s); try discriminate. destruct (close_all s (roots nt)) eqn:Hca; try discriminate.
+    injection H as <-. apply shape_close_all with (nt := nt) in Hca; auto.
+  - destruct (mn s); try discriminate. destruct (all_exited s); try discriminate. injection H as <-.
+    apply shape_log. eapply shape_intro; eauto.
+  - destruct (mn s); try discriminate. destruct (_ <=? _); try discriminate. injection H as <-.
+    apply shape_log. eapply shape_intro; eauto.
+  - injection H as <-. eapply shape_intro; eauto.
+  - destruct (nth_error (ws (node s n)) w) as [[]|] eqn:Hg; try discriminate.
+    destruct (q (node s n)); try discriminate. injection H as <-.
+    apply shape_log. apply shape_set_node; auto. cbn [ws]. apply upd_length.
+  - destruct (nth_error (ws (node s n)) w) as [[]|] eqn:Hg; try discriminate.
+    destruct (outcome_ok _ _ _); try discriminate.
+    destruct o as [[|e es]| |]; injection H as <-; apply shape_log; apply shape_set_node; auto;
+      unfold set_worker, set_ws; cbn [ws]; apply upd_length.
+  - destruct (nth_error (ws (node s n)) w) as [[| |[|[c it] rest]| | | | |]|] eqn:Hg; try discriminate.
+    destruct (try_send nt s c it) as [s1| |] eqn:Hts; try discriminate. injection H as <-.
+    apply shape_try_send with (nt := nt) in Hts; auto.
+    apply shape_set_node; auto. autorewrite with fb. apply upd_length.
+  - destruct (nth_error (ws (node s n)) w) as [[]|] eqn:Hg; try discriminate.
+    destruct (q (node s n)); try discriminate. destruct (closed (node s n)); try discriminate. injection H as <-.
+    apply shape_set_node; auto. autorewrite with fb. apply upd_length.
+  - destruct (nth_error (ws (node s n)) w) as [[]|] eqn:Hg; try discriminate.
+    destruct (forallb wpast _); try discriminate. injection H as <-.
+    apply shape_set_node; auto. autorewrite with fb. apply upd_length.
+  - destruct (nth_error (ws (node s n)) w) as [[]|] eqn:Hg; try discriminate.
+    destruct (once (node s n)); try discriminate. injection H as <-.
+    apply shape_log. apply shape_set_node; auto. autorewrite with fb. apply upd_length.
+  - destruct (nth_error (ws (node s n)) w) as [[]|] eqn:Hg; try discriminate.
+    destruct (inflight (node s n)); try discriminate. destruct (existsb _ _); try discriminate. injection H as <-.
+    apply shape_log. apply shape_set_node; auto. autorewrite with fb. apply upd_length.
+  - destruct (nth_error (ws (node s n)) w) as [[]|] eqn:Hg; try discriminate.
+    destruct (close_all s (targets (info nt n))) as [s1|] eqn:Hca; try discriminate. injection H as <-.
+    apply shape_close_all with (nt := nt) in Hca; auto.
+    apply shape_set_node; auto. autorewrite with fb. apply upd_length.
+  - destruct (nth_error (ws (node s n)) w) as [[]|] eqn:Hg; try discriminate.
+    destruct (once (node s n)); try discriminate. injection H as <-.
+    apply shape_set_node; auto. autorewrite with fb. apply upd_length.
+  - destruct (remove_one it (inflight (node s n))); try discriminate.
+    destruct (outcome_ok _ _ _); try discriminate. injection H as <-.
+    apply shape_log.
+    match goal with |- context [set_node s n ?x] => assert (Hs1 : inv_shape nt (set_node s n x)) end.
+    { apply shape_set_node; auto. autorewrite with fb. reflexivity. }
+    destruct (deliveries nt n it o); auto.
+  - destruct (nth_error (cbs s) i) as [[n [|[c it] rest]]|] eqn:Hg; try discriminate.
+    destruct (try_send nt s c it) as [s1| |] eqn:Hts; try discriminate. injection H as <-.
+    apply shape_try_send with (nt := nt) in Hts; auto.
+Qed.
